@@ -13,6 +13,7 @@ Require Import DS.Model.MetaBase DS.Gen.GenRepoint DS.Model.Meta DS.Model.MetaSp
 Require Import DS.Proofs.RepointProofs DS.Proofs.MetaProofs.
 Require Import DS.Model.MetaPy DS.Gen.GenMeta DS.Proofs.MetaGenProofs DS.Gen.GenFileOps DS.Proofs.FileOpsGenProofs.
 Require Import DS.Model.CommitBase DS.Gen.GenCommit DS.Proofs.StepGenProofs.
+Require Import DS.Model.ManifestCodec DS.Gen.GenEntryCodec DS.Proofs.EntryCodecProofs.
 Import ListNotations.
 Open Scope Z_scope.
 
@@ -242,6 +243,30 @@ Proof.
   split; [exact txn_step_regenerated|]. split; [exact delete_step_regenerated|]. exact gen_create_snapshot_agrees.
 Qed.
 Print Assumptions C15_step_regenerated.
+
+(* The file manager's side of "files carried through manifest rewrites keep their original adding snapshot and sequence
+   number": the manifest ENTRY codec, regenerated field by field from FileManager.create_manifest_file (the `record`
+   literal and the stamp of an entry) and read_manifest_file (Gen/GenEntryCodec.v), loses nothing.  For every DataFile:
+   an entry written as ADDED and read back carries the committing snapshot's id and sequence number; carried through a
+   later rewrite as EXISTING it still carries THOSE, and its path, size, row count, checksum and column bounds are
+   what they were (an empty bounds / statistics map reads back as none).  Hypotheses: the inverse laws of the
+   primitive codecs -- int(str(k)) = k, _safe_int(n) = n on ints, and _decode_bound(_encode_bound(v)) = v on the
+   values a bound can take (that law, for the regenerated bound codec, is C13_bound_roundtrip). *)
+Theorem C15_entry_codec_preserves :
+  forall (bval ebound skey : Type) (enc : bval -> ebound) (dec : ebound -> bval) (str_of : Z -> skey) (int_of : skey -> Z)
+         (safe_int pstr : Z -> Z),
+  (forall k, int_of (str_of k) = k) ->
+  forall okb : bval -> bool, (forall v, okb v = true -> dec (enc v) = v) -> (forall z, safe_int z = z) ->
+  forall (id : Z) (sq : option Z) (id' : Z) (sq' : option Z) (df : datafile bval), bounds_ok bval okb df ->
+  let once := gen_read_entry bval ebound skey dec int_of
+                (gen_write_entry bval ebound skey enc str_of safe_int pstr gen_status_added id sq df) in
+  let twice := gen_read_entry bval ebound skey dec int_of
+                (gen_write_entry bval ebound skey enc str_of safe_int pstr gen_status_existing id' sq' once) in
+  df_checksum twice = df_checksum df /\ df_lower twice = norm_map (df_lower df) /\ df_upper twice = norm_map (df_upper df)
+  /\ df_path twice = df_path df /\ df_count twice = df_count df /\ df_size twice = df_size df
+  /\ df_added twice = Some id /\ df_seq twice = sq.
+Proof. exact rewrite_preserves. Qed.
+Print Assumptions C15_entry_codec_preserves.
 
 (* ------------------------------------------------------------------ C09 pieces proved over the same model
    (re-exported by Props/C09.v): lookups by timestamp / by id, and deleting the current snapshot. *)
